@@ -14,7 +14,9 @@ import (
 // after every removal.
 var scripts = map[string][]string{
 	"kv": {"set", "append", "setrange", "getset", "setnx", "expire", "persist", "setex", "setifeq-miss", "setifeq-hit", "delifeq-miss",
-		"delifeq-hit", "setnx", "incr", "del", "incr", "incrby", "del", "pfadd", "pfadd", "set", "mset2", "plset2", "del2", "set-ex", "set"},
+		"delifeq-hit", "setnx", "incr", "del", "incr", "incrby", "del", "pfadd", "pfadd", "set", "mset2", "plset2", "del2", "set-ex", "set",
+		// multi-key writes whose keys span several TABLES (the table key counters are judged exactly, see checkTableCounters)
+		"del-mt", "plset-mt", "del-mt", "mset-mt", "plset-mt"},
 	"hash": {"hset", "hmset", "hsetnx", "hsetnx", "hincrby", "hdel", "hexpire", "hpersist", "hclear", "hset", "hmclear2", "hmset", "hdel-all", "hmset"},
 	"list": {"rpush", "lpush", "lset", "lpop", "rpop", "ltrim", "lexpire", "lpersist", "lclear", "rpush", "lmclear2", "lfixkey", "rpush", "lpop-all", "rpush"},
 	"set":  {"sadd", "sadd1", "srem", "spop", "sexpire", "spersist", "sclear", "sadd", "smclear2", "sadd", "srem-all", "sadd"},
@@ -171,6 +173,27 @@ func (w *world) buildOp(r *rand.Rand, op string, a tkey, partner tkey, forced []
 		delete(w.kvVal, a)
 		delete(w.kvVal, partner)
 		return &stepT{Op: op, Targets: []target{{tkey: a}, {tkey: partner}}, Cmd: multiKeys("del", a, partner), Removes: true}
+	case "del-mt":
+		// DEL a, <same-table partner>, <keys of 1-2 other tables>
+		ks := w.multiTableKeys(a, partner)
+		var ts []target
+		for _, k := range ks {
+			delete(w.kvVal, k)
+			ts = append(ts, target{tkey: k})
+		}
+		return &stepT{Op: op, Targets: ts, Cmd: multiKeys("del", ks...), Removes: true}
+	case "mset-mt", "plset-mt":
+		// keys of a's table first, the key of another table LAST
+		ks := w.multiTableKeys(a, partner)
+		var ts []target
+		var args []string
+		for _, k := range ks {
+			val := w.nextVal()
+			w.kvVal[k] = val
+			ts = append(ts, target{tkey: k})
+			args = append(args, k.Table, k.Key, val)
+		}
+		return &stepT{Op: op, Targets: ts, Cmd: kvPairs(strings.TrimSuffix(op, "-mt"), args...)}
 	case "mset2", "plset2":
 		v2 := w.nextVal()
 		w.kvVal[a], w.kvVal[partner] = v, v2
